@@ -1,22 +1,18 @@
 /-
   C12 — Writing preserves every atom's substituent order.
 
-  PARTIAL (stages 1 and 2).
-
-  Stage 2, `substituent_order_forest`: for EVERY well-formed adjacency list whose traversal meets no ring
-  closure (all forests), after the complete round trip walk → write → read → build every atom's re-read
-  bond list is its original bond list in the original order, renumbered by visit position, with only the
-  bond it was entered through moved to the front (component roots: unchanged).  Graphs with rings are
-  stage 3 (in progress) and stay on the order oracle and the correspondence.
+  Stage 3, `substituent_order`: for EVERY well-formed adjacency list (rings included) on which the traversal
+  succeeds (it fails only by running out of ring numbers, D17), after the complete round trip walk → write →
+  read → build every atom's re-read bond list is its original bond list in the original order, renumbered
+  (injectively) by visit position, with only the bond it was entered through moved to the front (component
+  roots: unchanged); ring-closure bonds and branches stay interleaved as listed.  Proof: the simulation of
+  Purr/Lemmas/RtcRing.lean (see C01).  What is not a theorem: `walk` = `walkRec` (compared on every run).
 
   Stage 1, proved for every atom and bond list: when the traversal reaches an atom it
   schedules that atom's other bonds in exactly the order of its bond list (so children are visited and
   ring digits written in list order, interleaved as listed), the only bond taken out is the one it
   arrived through, and the builder puts the arrival bond first when the text is read back; components
-  are started in increasing id order over the atoms not yet visited.  The global statement "the re-read
-  bond list of every atom is the original with the arrival bond moved to the front" is the bond-list
-  clause of the round-trip core RTC (in progress); until then it is covered by the S-graph
-  correspondence and the order oracle.
+  are started in increasing id order over the atoms not yet visited.
 -/
 import Purr.Lemmas.StereoL
 import Purr.Lemmas.BuilderL
@@ -24,16 +20,18 @@ import Purr.Props.C01
 namespace Purr.C12
 open Purr Purr.Spec
 
-/-- STAGE 2.  Substituent order through the whole round trip of a forest. -/
-theorem substituent_order_forest (g : Graph) (hw : WellFormed g) (es : List (Event × Nat)) (ord : List Nat)
-    (h : walkRecL g = some (es, ord)) (hj : ∀ e ∈ es, isJoin e = false) (hne : es ≠ []) :
+/-- STAGE 3.  SUBSTITUENT ORDER THROUGH THE WHOLE ROUND TRIP, for every well-formed adjacency list (rings
+    included): every atom's re-read bond list is its original list, renumbered by visit position, with only
+    the bond it was entered through moved to the front; ring-closure bonds stay at their listed position. -/
+theorem substituent_order (g : Graph) (hw : WellFormed g) (es : List (Event × Nat)) (ord : List Nat)
+    (h : walkRecL g = some (es, ord)) (hne : es ≠ []) :
     ∃ t g', write? (es.map (·.1)) = some t ∧ (read t).2 = .ok ∧ build? (read t).1 = some (.ok g') ∧
       ∀ x atomX, g[x]? = some atomX → ∃ atom', g'[pos ord x]? = some atom' ∧
         (atom'.bonds = atomX.bonds.map (fun b => ⟨b.kind, pos ord b.tid⟩) ∨
          ∃ pre back post, atomX.bonds = pre ++ back :: post ∧ (∀ o ∈ pre, o.tid ≠ back.tid) ∧
            (∀ o ∈ post, o.tid ≠ back.tid) ∧
            atom'.bonds = (back :: (pre ++ post)).map (fun b => ⟨b.kind, pos ord b.tid⟩)) := by
-  obtain ⟨t, g1, hw', hok, hb, hrel, hnd, hcov⟩ := C01.roundtrip_forest_relabelled g hw es ord h hj hne
+  obtain ⟨t, g1, hw', hok, hb, hrel, hnd, hcov⟩ := C01.roundtrip_relabelled g hw es ord h hne
   refine ⟨t, g1.map normAtom, hw', hok, hb, ?_⟩
   intro x atomX hgx
   have hx : x ∈ ord := (hcov x).mp (by
@@ -46,11 +44,22 @@ theorem substituent_order_forest (g : Graph) (hw : WellFormed g) (es : List (Eve
   · subst h2
     exact ⟨_, by rw [List.getElem?_map, hd]; rfl, Or.inr ⟨pre, back, post, h1, h3, h4, rfl⟩⟩
 
+/-- STAGE 2 (subsumed by stage 3): the forest case -/
+theorem substituent_order_forest (g : Graph) (hw : WellFormed g) (es : List (Event × Nat)) (ord : List Nat)
+    (h : walkRecL g = some (es, ord)) (_hj : ∀ e ∈ es, isJoin e = false) (hne : es ≠ []) :
+    ∃ t g', write? (es.map (·.1)) = some t ∧ (read t).2 = .ok ∧ build? (read t).1 = some (.ok g') ∧
+      ∀ x atomX, g[x]? = some atomX → ∃ atom', g'[pos ord x]? = some atom' ∧
+        (atom'.bonds = atomX.bonds.map (fun b => ⟨b.kind, pos ord b.tid⟩) ∨
+         ∃ pre back post, atomX.bonds = pre ++ back :: post ∧ (∀ o ∈ pre, o.tid ≠ back.tid) ∧
+           (∀ o ∈ post, o.tid ≠ back.tid) ∧
+           atom'.bonds = (back :: (pre ++ post)).map (fun b => ⟨b.kind, pos ord b.tid⟩)) :=
+  substituent_order g hw es ord h hne
+
 /-- distinct atoms go to distinct positions, so the renumbering loses nothing -/
 theorem renumbering_injective (g : Graph) (hw : WellFormed g) (es : List (Event × Nat)) (ord : List Nat)
-    (h : walkRecL g = some (es, ord)) (hj : ∀ e ∈ es, isJoin e = false) :
+    (h : walkRecL g = some (es, ord)) :
     ord.Nodup ∧ (∀ x, x < g.length ↔ x ∈ ord) ∧ ∀ a b, a ∈ ord → b ∈ ord → pos ord a = pos ord b → a = b := by
-  obtain ⟨g1, _, _, hnd, hcov⟩ := rtc_forest g hw es ord h hj
+  obtain ⟨g1, _, _, hnd, hcov⟩ := rtc g hw es ord h
   exact ⟨hnd, hcov, fun a b ha hb => pos_inj ha hb⟩
 
 /-- a newly reached atom's other bonds are pushed in list order (the stack's top is the first one) -/
